@@ -877,6 +877,7 @@ def _kernel(ctx, agg, fam, algo, depth=0, lo=0, hi=None):
             if b[i] < b[i + 1]]
     out = pmap(_kernel_job, jobs, ctx.jobs)
     res = sum(r[0] for r in out)
+    res[5] = max(int(r[0][5]) for r in out)
     oc = sum(r[1] for r in out)
     insts = sum(r[2] for r in out)
     dts = {}
@@ -1026,9 +1027,9 @@ def run(ctx: Ctx) -> None:
                 "the reference model without violating a clause")
     m = family_matrix(f4, 5)
     for algo in ALGOS:
-        k, at, tr, mt = solve_case(m, algo, (2, 0, 3, 1), (0, 1, 2, 1, 1, 1))
+        k, at, tr, mt = solve_case(m, algo, (0, 1, 2, 3), (1, 2, 0, 0, 1, 0))
         ctx.sample({"engine": "solve", "algo": algo, "matrix": m,
-                    "start": [2, 0, 3, 1], "script": [0, 1, 2, 1, 1, 1],
+                    "start": [0, 1, 2, 3], "script": [1, 2, 0, 0, 1, 0],
                     "handed_over": tr, "model": mt})
     ctx.sample({"engine": "kernel", "algo": "ea", "matrix": m,
                 "x": [2, 0, 3, 1], "move": [1, 2],
